@@ -6,10 +6,10 @@ CHECKS = {
  'C01': ('exploration', '4.C01', 'seeded world simulation: model-vs-API image after add under random prior history, id/ILI collisions, BATCH_SIZE, short reads, route, restart'),
  'C03': ('exploration', '4.C03', 'seeded world simulation: export on a primary node, re-import on an empty replica node; loaded export vs model document, replica vs primary transcript'),
  'C04': ('exploration', '4.C04', 'seeded interleaving of long-lived client sessions and a mutator; membership-in-scope invariant and before/after transcript invariance'),
- 'C05': ('exploration', '4.C05', 'seeded add/remove/add-ILI/restart histories against a reference model + fresh-database equivalence after every history'),
+ 'C05': ('exploration', '4.C05', 'seeded add/remove/add-ILI/restart histories against a reference model + fresh-database equivalence after every history; an extension shipped in one file with the next release of its base'),
  'C06': ('fault_enumeration', '4.C06', 'fault injection at every progress callback, SQL statement, authorizer callback and VM interrupt of sampled (history, op) pairs; durable pre-state equality + retry'),
  'C07': ('exploration', '4.C07', 'every supply route of a sampled resource into copies of one pre-state, seeded directory order, repetition; logical-dump equivalence with the plain-XML route'),
- 'C08': ('exploration', '4.C08', 'seeded add/remove histories (several versions per id, prefix ids) + specifier battery against a model of the documented table'),
+ 'C08': ('exploration', '4.C08', 'seeded add/remove histories (several versions per id, prefix ids) + specifier battery against a model of the documented table; worlds of 257-513 installed lexicons'),
  'C10': ('exploration', '4.C10', 'seeded histories and sessions; navigation/equality/translation laws against the model in every reached store state'),
  'C11': ('exploration', '4.C11', 'seeded histories and scopes; relation multisets, closures and simple paths against the model; termination by statement budget'),
  'C12': ('exploration', '4.C12', 'seeded histories in which dependency providers come and go; expand set, warning and ILI-mapped relations against the model; long-lived default-mode Wordnets re-queried after later additions; hub worlds of 40-300 children'),
